@@ -66,6 +66,8 @@ enum {
   MYTH_VP_SWITCH_TO,
   MYTH_VS_ATOMIC,
   MYTH_VS_INIT_ATTR_WR,
+  /* myth_misc_func.h: per-worker free lists (unsynchronised by design) */
+  MYTH_VS_FL_PUSH, MYTH_VS_FL_POP,
   MYTH_VS_N_SITES
 };
 
